@@ -47,6 +47,7 @@ class Client:
         self.abort_fired_at: str | None = None
         self.abort_in: str | None = None
         self.abort_hits = 0
+        self.abort_cold: frozenset[tuple[str, int]] | None = None
         self.after_write = False
         self.prev_was_write = False
         self.in_op = False
@@ -243,7 +244,29 @@ class Scheduler:
             raise StepCap(f"step cap {self.step_cap} exceeded")
         if cur.in_op and not boundary:
             cur.op_step += 1
-            if cur.abort_in is not None and cur.abort_at is not None and frame is not None:
+            if cur.abort_cold is not None and cur.abort_at is not None and frame is not None:
+                # crash point aimed at COLD code: the k-th pre-emption point on a line that only
+                # the first execution in a process reaches (lazy initialisation, cache fills)
+                if isinstance(frame, tuple):
+                    code, offset = frame
+                    ln = 0
+                    for st, en, l2 in code.co_lines():
+                        if st <= offset < en and l2 is not None:
+                            ln = l2
+                            break
+                    key = (os.path.basename(code.co_filename), ln)
+                else:
+                    key = (os.path.basename(frame.f_code.co_filename), frame.f_lineno)
+                if key in cur.abort_cold:
+                    cur.abort_hits += 1
+                    if cur.abort_hits >= cur.abort_at:
+                        cur.abort_at = None
+                        exc = cur.abort_exc
+                        cur.abort_fired_at = self._location(frame)
+                        self.record("abort", cur.idx, cur.op_index, cur.op_step, cur.abort_fired_at)
+                        assert exc is not None
+                        raise exc
+            elif cur.abort_in is not None and cur.abort_at is not None and frame is not None:
                 # targeted crash point: the k-th pre-emption point inside frames whose qualified
                 # name contains the given text (places faults inside in-flight state)
                 code = frame[0] if isinstance(frame, tuple) else frame.f_code
@@ -481,10 +504,13 @@ class Scheduler:
         if abort is not None:
             client.abort_at = int(abort["at"])
             client.abort_in = abort.get("in")
+            cl = abort.get("cold_lines")
+            client.abort_cold = frozenset((a, int(b)) for a, b in cl) if cl is not None else None
             client.abort_exc = make_abort_exc(abort["exc"])
         else:
             client.abort_at = None
             client.abort_in = None
+            client.abort_cold = None
             client.abort_exc = None
         self.interleaving.update(f"b{client.idx}.{op_index};".encode())
         client.in_op = True
